@@ -427,6 +427,31 @@ func C19(p *engine.Prog, r *engine.Report) {
 		})
 	}
 	r.Floor("C19-R4", 8, "counted: 8 rpcRequest literals in json.go")
+	// the header a key is read from is fresh per message: json.Unmarshal leaves members that are absent from
+	// the message untouched, so a decode target that outlives the message would hand the previous
+	// request's key to a key-less one
+	{
+		n := 0
+		for _, f := range fns {
+			for _, b := range f.Blocks {
+				for _, ins := range b.Instrs {
+					fa, ok := ins.(*ssa.FieldAddr)
+					if !ok {
+						continue
+					}
+					if o, fld, okF := engine.FieldOf(fa); !okF || o != "jsonRequest" || fld != "Key" {
+						continue
+					}
+					n++
+					a, isA := engine.Origin(fa.X).(*ssa.Alloc)
+					r.Check(isA && a.Parent() == f, "C19-R4", uniq(r, engine.RelName(f)+"|key read from a header decoded for this message only"), p.InstrPos(fa), "local decode target", "the key is read from "+engine.PathOf(fa.X)+", which outlives the message: a request without a key member inherits the key of the previous request decoded into it")
+				}
+			}
+		}
+		if n < 2 {
+			r.Und("C19-R4", "jsonRequest.Key reads", "", fmt.Sprintf("%d found", n))
+		}
+	}
 	// who-may-write rpcRequest.key: only literal initialisers (stores count == literals with key)
 	keyStores := storesToField(fns, "rpcRequest", "key")
 	for _, s := range keyStores {
@@ -605,7 +630,51 @@ func c19R6(p *engine.Prog, r *engine.Report) {
 		ok, how := keyIsSetBefore(p, l.fn, l.call, setKey, 0)
 		r.Check(ok, "C19-R6", key, p.InstrPos(l.call), how, "the endpoint is created with RPC.APIKey as it is before Config.SetApiKey ran ("+how+"): when no key was configured explicitly it is still empty and the server enforces nothing until the real endpoint replaces it")
 	}
-	r.Floor("C19-R6", 4, "3 NewServer sites + 2 key loads")
+	// Config.SetApiKey establishes the key: when none is configured, every successful return has stored one
+	{
+		g := guardsWhere(setKey, func(cond ssa.Value) (bool, bool, string) {
+			x, y, isEq, ok := eqCond(cond)
+			if !ok {
+				return false, false, ""
+			}
+			for _, pr := range [][2]ssa.Value{{x, y}, {y, x}} {
+				if _, fld, okF := engine.FieldOf(engine.Origin(pr[0])); okF && fld == "APIKey" && isConstString(pr[1], "") {
+					return true, isEq, "no key configured"
+				}
+			}
+			return false, false, ""
+		})
+		ok := len(g) > 0
+		if ok {
+			stores := map[*ssa.BasicBlock]bool{}
+			for _, b := range setKey.Blocks {
+				for _, ins := range b.Instrs {
+					if st, isSt := ins.(*ssa.Store); isSt {
+						if _, fld, okF := engine.FieldOf(st.Addr); okF && fld == "APIKey" {
+							stores[b] = true
+						}
+					}
+				}
+			}
+			for _, gg := range g {
+				pe := gg.PassEdge()
+				start := pe.From.Succs[pe.Succ]
+				if stores[start] {
+					continue
+				}
+				for b := range engine.ReachAvoiding(setKey, start, nil, stores) {
+					if len(b.Instrs) == 0 {
+						continue
+					}
+					if ret, isRet := b.Instrs[len(b.Instrs)-1].(*ssa.Return); isRet && retErrKind(ret) != "nonnil" {
+						ok = false
+					}
+				}
+			}
+		}
+		r.Check(ok, "C19-R6", "Config.SetApiKey|with no key configured, success only after a key was stored", p.Pos(setKey.Pos()), "every success path of the empty-key branch stores RPC.APIKey", "SetApiKey can return successfully with RPC.APIKey still empty (e.g. the key found in api.key is not applied): the server then enforces nothing")
+	}
+	r.Floor("C19-R6", 5, "3 NewServer sites + 2 key loads")
 }
 
 // keyIsSetBefore: at `at` in fn, Config.SetApiKey()==nil has happened: a dominating successful call in fn,
